@@ -18,7 +18,10 @@ import (
 	"os"
 	"sort"
 	"strings"
+	"time"
 )
+
+const hangAfter = 4 * time.Second
 
 type ctx struct {
 	rng      *rand.Rand
@@ -28,6 +31,7 @@ type ctx struct {
 	start    int
 	careful  bool
 	dry      bool
+	curFile  string
 	exec     func(op string, args []sx) sx
 }
 
@@ -47,7 +51,26 @@ func (c *ctx) emit(cs sx) {
 		// make sure the case index survives a fatal runtime error in the library
 		c.out.Flush()
 	}
-	out := protectSx(func() sx { return c.exec(cs.tag(), cs.args()) })
+	var out sx
+	if c.careful && c.curFile != "" {
+		// remember the case being executed so that a fatal crash can be attributed to it
+		os.WriteFile(c.curFile, []byte(cs.String()), 0o644)
+	}
+	{
+		// watchdog: a case that does not finish is reported as (hang); the process then exits
+		// with status 75 and ./check resumes after it
+		done := make(chan sx, 1)
+		go func() { done <- protectSx(func() sx { return c.exec(cs.tag(), cs.args()) }) }()
+		select {
+		case out = <-done:
+		case <-time.After(hangAfter):
+			cs.list = append(cs.list, T("hang"))
+			c.out.WriteString(cs.String())
+			c.out.WriteByte('\n')
+			c.out.Flush()
+			os.Exit(75)
+		}
+	}
 	cs.list = append(cs.list, out)
 	c.out.WriteString(cs.String())
 	c.out.WriteByte('\n')
@@ -118,6 +141,9 @@ func main() {
 	}
 	c := &ctx{rng: rand.New(rand.NewSource(*seed)), thorough: *tier == "thorough",
 		out: bufio.NewWriterSize(f, 1<<20), start: *start, careful: *careful, dry: *dry, exec: p.exec}
+	if *outp != "-" {
+		c.curFile = *outp + ".cur"
+	}
 	if *replay != "" {
 		data, err := os.ReadFile(*replay)
 		if err != nil {
